@@ -103,6 +103,14 @@ Proof.
 Qed.
 Print Assumptions C26_torn_append_repaired_partial.
 
+(** (C) The complete write (k = len b + 16) is exactly the file of the segment with [b]
+    appended, so by [C26_crash_between_calls_partial] the new entry is durable and
+    delivered after everything pending before it. *)
+Theorem C26_complete_append_image_partial :
+  forall l1 l2 m b, torn_image (sd (rep l1 l2 m)) b (len b + 16) = sd (rep l1 (l2 ++ [b]) m).
+Proof. exact torn_image_full. Qed.
+Print Assumptions C26_complete_append_image_partial.
+
 (** (C) refuted without the guard.  Two acknowledged, never advanced 8-byte entries;
     the append of a 16-byte entry is torn after its 8-byte length word (k = 8).  The
     file then ends in the big-endian word 16 = offset of the second record: open
